@@ -92,7 +92,12 @@ func (a *extraAttribute) deserialize(b []byte) (int, error) {
 		return 0, ErrCorruptedData
 	}
 
-	a.extra = make([]byte, binary.BigEndian.Uint16(b))
+	n := int(binary.BigEndian.Uint16(b))
+	if n > maxExtraLen || len(b) < sszSize+n {
+		return 0, ErrCorruptedData
+	}
+
+	a.extra = make([]byte, n)
 	copy(a.extra, b[sszSize:])
 
 	return sszSize + len(a.extra), nil
